@@ -6,7 +6,11 @@ HOOK_COMMITS = ["d85c6ee", "170bde9", "43ffa35", "8043914", "4c6f2d6", "8d2eb59"
 
 # id -> (engine, category, technique, level text, level note, design ref)
 CHECKS = {
- "C08": ("E1-simnet-explorer", "model_checking",
+ "C07": ("E1-simnet-explorer", "model_checking",
+   "exhaustive enumeration of endpoint behaviours around the K=20 boundary against a real initiator over a simulated network; verdict computed from the lookup's own datagram trace",
+   "A real node runs each lookup kind over 3..26 scripted endpoints with BEP42-secure ids; every choice of up to 2 (quick) / 3 (thorough) varying endpoints at ranks 1,2,19,20,21,22 x 7 list behaviours x 3 initial-knowledge shapes is executed (thorough adds every single latency deviation on the base shapes); closure, the reported / stored-to set and the never-ask-again rule are decided from the trace alone.",
+   "Loss-free network; sizes above 26 are represented by the ranks relative to the 20-boundary.", "DESIGN.md section 6, C07"),
+  "C08": ("E1-simnet-explorer", "model_checking",
    "exhaustive enumeration of storer behaviours and reply arrival orders against a real writer node over a simulated network, oracle computed from the network log",
    "A real writer runs every put kind against 1-3 (quick) / 1-4 (thorough) scripted storing endpoints under every assignment of {no token, ack, 203, 205, 301, 302, 201, silence, late ack} and every arrival order, plus replica sets of 255/256/257/300 nodes through extra_nodes; the result is judged against which acknowledgements and 301/302 replies the log shows were delivered in time, and every write datagram is checked to go to a token issuer with its own token.",
    "Release arithmetic (no overflow checks); replies faster than 500 ms count as in time.", "DESIGN.md section 6, C08"),
